@@ -180,10 +180,18 @@ def check(fx, rep, tier):
                         why.append('Ok is not returned exactly when the flag is set')
                 # value type: every next_value is instantiated with an any-value type
                 for b2 in crate.bodies:
-                    if b2.path.startswith(co.path.split('::{')[0]) and b2.name == 'visit_map':
+                    if b2.name == 'visit_map' and not b2.in_test and re.search(r'\b%s\b' % re.escape(short_ca), b2.path):
                         for blk, tm in b2.iter_terms('call'):
                             if tm['callee'].get('name') == 'next_value' and not any(a in (tm['callee'].get('args') or '') for a in ANY_VALUE):
                                 why.append('a member value is decoded as %s' % tm['callee'].get('args'))
+                            if tm['callee'].get('name') in ('next_key', 'next_entry'):
+                                # the untagged enum replays the frame from serde's buffered Content: a member name that was written with an
+                                # escape is an owned string there, which only an owning key type can be decoded from
+                                kt = (tm['callee'].get('args') or '').strip('[]').split(', ')
+                                kt = [x for x in kt if not x.startswith("'") and '/#' not in x]
+                                if not kt or not any(re.search(r'(^|::)(String|Cow<)', x) for x in kt[:1]):
+                                    why.append('member names are decoded as %s: a borrowed or narrower key type does not accept every member name '
+                                               '(`{"\\u0065rror":..}` is an owned string in the buffered content), so such a frame falls through to the success shape' % (kt[0] if kt else '?'))
             rep.check(not why, 'R04.5', '%s|catch-all-total|hand-written|%s' % (fk, cfg), '%s:%s' % (co.file, st.get('line')),
                       'the catch-all %s visits every member, ignores the values, and succeeds exactly when a member named `error` was seen (repeated members included)' % short_ca,
                       'the hand-written catch-all %s is not total over objects with an `error` member: %s' % (short_ca, '; '.join(why)))
